@@ -17,6 +17,10 @@ def sh(*a, **k):
 KNOWN = set((e["property"], e["key"]) for e in json.load(open(os.path.join(VERIF, "known_findings.json")))["findings"])
 
 def main():
+    global PROPS
+    if "--target-only" in sys.argv:
+        sys.argv.remove("--target-only")
+        PROPS = None
     ids = sys.argv[1:] or sorted(os.listdir(os.path.join(VERIF, "seeded")))
     ids = [i for i in ids if os.path.exists(os.path.join(VERIF, "seeded", i, "patch.diff"))]
     if sh("git", "-C", "/repo", "status", "--porcelain", "--untracked-files=no").stdout.strip():
@@ -28,7 +32,7 @@ def main():
             print(sid, "patch does not apply:", r.stderr.strip()); continue
         out = {"seed": sid, "reported": {}, "errors": {}}
         try:
-            for p in PROPS:
+            for p in (PROPS or [sid.split("-")[0]]):
                 r = sh(os.path.join(VERIF, "check"), p, "--no-evidence", "--json", cwd=VERIF)
                 keys = []
                 try:
@@ -42,6 +46,11 @@ def main():
                     out["errors"][p] = "exit 2: " + (r.stdout + r.stderr)[-300:]
         finally:
             sh("git", "-C", "/repo", "checkout", "--", ".")
+        if PROPS is None and os.path.exists(os.path.join(d, "checks.json")):
+            # keep what other properties reported at the last full run
+            old = json.load(open(os.path.join(d, "checks.json")))
+            for k, v in old.get("reported", {}).items():
+                out["reported"].setdefault(k, v)
         json.dump(out, open(os.path.join(d, "checks.json"), "w"), indent=1)
         tgt = sid.split("-")[0]
         print("%-8s target %s: %s  | others: %s %s" % (
